@@ -140,6 +140,7 @@ def special_values(ps: Sequence[Sequence[float]]) -> List[float]:
         if a[1] != b[0]:
             out.append(a[1] + (b[0] - a[1]) / 2)
     out += [first - span, last + span, first - 1000 * span, last + 1000 * span, first - abs(first) * 1e-15, 0.0]
+    out += [last, last, first]  # the outer edges are where inclusion rules differ: sample them more often
     return [float(x) for x in out if math.isfinite(x)]
 
 
@@ -168,7 +169,7 @@ def weights_for(n: int, kinds=("none", "int", "dyadic", "float")):
         opts.append(st.lists(dyadics(256, 3), min_size=n, max_size=n).map(lambda w: ("dyadic", w)))
     if "float" in kinds:
         opts.append(st.lists(st.floats(0.0, 1000.0, allow_nan=False), min_size=n, max_size=n).map(lambda w: ("float", w)))
-    if "signed" in kinds:
+    for _ in range(list(kinds).count("signed")):
         opts.append(st.lists(st.builds(lambda k, m: k / (1 << m), st.integers(-64, 256), st.integers(0, 2)), min_size=n, max_size=n).map(lambda w: ("signed", w)))
     return st.one_of(*opts)
 
